@@ -152,4 +152,14 @@ PROPS["C01"] = {
     "assumptions": TRUSTED + ["soundness against all adversaries is out of reach of any runtime monitor: only the implemented attack families are decided", "the forger learns the mask structure by black-box probing of eval_oods_polynomial"],
 }
 
+PROPS["C17"] = {
+    "level": "exploration",
+    "technique": "runtime resource monitor: hostile numeric values (alone and with dependent fields re-declared consistently) run through the real verifier in crash-isolated workers under a transcript-event budget (hook), a counting global allocator, an 8 GiB address-space limit and a CPU-time watchdog; verdicts on logical counters and CPU time only",
+    "rule": "bounded restatement: for a proof of S serialised bytes holding N field elements: transcript events <= 64+4N, peak heap <= 64S+64MiB, total allocation <= 4096S+256MiB, CPU <= max(10 s, 200x the honest original measured in the same process); cases = every numeric leaf <- {0,1,2^16,2^32,2^40,2^63,2^64-1,2^64,2^128,2^250,p-2,p-1} (quick: config/public-input scalars + 500 sampled), 9 re-declaration groups x value lists, group x leaf and group x group combinations; non-trivial = well-typed and different from the original",
+    "legs": [full("resource", "resource", t=FULL_SHIPPED, sharded=True, timeout={"quick": 1500, "thorough": 14000})],
+    "required_counters": ["honest.events", "outcome.error_value"],
+    "min_evaluations": {"quick": 500, "thorough": 20000},
+    "assumptions": TRUSTED + ["unbounded termination is restated as the stated budgets (>= 100x head-room over a size-proportional verifier)", "a parent wall-clock watchdog firing is inconclusive, never a violation"],
+}
+
 NOT_APPLICABLE = {}
